@@ -462,12 +462,45 @@ pub fn conv_probe_utc(
             "UTC count {u} ns: to_tai_duration / to_duration_in_time_scale(TAI) disagree with to_time_scale(TAI)"
         ));
     }
+    // Float views of the same conversion (1 us tolerance: they are views, not the subject).
+    let tai_s = tai_ns as f64 / 1e9;
+    for (name, v) in [
+        ("to_tai_seconds", e.to_tai_seconds()),
+        ("to_tai(Unit::Second)", e.to_tai(hifitime::Unit::Second)),
+        ("to_tai_days * 86400", e.to_tai_days() * 86_400.0),
+    ] {
+        if (v - tai_s).abs() > 1e-6 * (1.0 + tai_s.abs() * 1e-9) {
+            return Err(format!(
+                "UTC count {u} ns: {name} = {v} s, but to_time_scale(TAI) gives {tai_s} s"
+            ));
+        }
+    }
+    let built = Epoch::from_utc_duration(duration_ns(u));
+    if built.time_scale != TimeScale::UTC || built.duration != e.duration {
+        return Err(format!(
+            "Epoch::from_utc_duration({u} ns) is not the UTC-scale epoch with that elapsed time: {:?} {:?}",
+            built.duration.to_parts(),
+            built.time_scale
+        ));
+    }
     let back = tai.to_time_scale(TimeScale::UTC);
     if back.time_scale != TimeScale::UTC {
         return Err(format!("TAI {tai_ns} ns: to_time_scale(UTC) returned scale {:?}", back.time_scale));
     }
     if tai.to_utc_duration() != back.duration {
         return Err(format!("TAI count {tai_ns} ns: to_utc_duration disagrees with to_time_scale(UTC)"));
+    }
+    let back_s = parts_ns(back.duration) as f64 / 1e9;
+    for (name, v) in [
+        ("to_utc_seconds", tai.to_utc_seconds()),
+        ("to_utc(Unit::Second)", tai.to_utc(hifitime::Unit::Second)),
+        ("to_utc_days * 86400", tai.to_utc_days() * 86_400.0),
+    ] {
+        if (v - back_s).abs() > 1e-6 * (1.0 + back_s.abs() * 1e-9) {
+            return Err(format!(
+                "TAI count {tai_ns} ns: {name} = {v} s, but to_time_scale(UTC) gives {back_s} s"
+            ));
+        }
     }
     let delta = parts_ns(back.duration) - u;
     if delta != 0 {
